@@ -77,6 +77,12 @@ def r011_frame(ctx, rule):
     ctx.floor(rule, "annotated-function constructions", len(cam), 2)
     ok = all(contains(kw(e, "all_data"), lambda s: s is frame) or root_of(kw(e, "all_data")) is frame for e in cam)
     ctx.ob(rule, fq, cam[0].node, ok, "sample parameters are stored into the same frame", construct="sample params frame")
+    pst = [e for e in r.events if e.kind == "store" and e.data.get("tkind") == "sub" and e.func == MF + "._construct_annotated_metric_function"
+           and e.data["value"].op != "fstr" and contains(e.data["obj"], lambda s: s is frame)]
+    ctx.floor(rule, "sample-parameter column stores", len(pst), 1)
+    okp = all(dom.val(e.data["value"])[0] == CLEAN for e in pst)
+    ctx.ob(rule, pst[0].func, pst[0].node, okp, "each sample parameter is stored as a position-only (ndarray) column",
+           construct="sample param column is positional")
     # bootstrap gets the same frame / functions / names
     gen = calls_to(r, M_BS + ":generate_bootstrap_samples")
     ok = len(gen) == 1 and kw(gen[0], "data") is data and kw(gen[0], "annotated_functions") is kw(c, "annotated_functions") \
